@@ -1,6 +1,6 @@
 (* Protocol entry point of the extracted model: one command + hex arguments in, one JSON line out. *)
 From Coq Require Import String Ascii List ZArith NArith Bool.
-From SDP Require Import Base PyStr Regex Json LR RealTables Lexer.
+From SDP Require Import Base PyStr Regex Json LR RealTables Lexer Actions Parse Engine Seq.
 Import ListNotations.
 Open Scope string_scope.
 
@@ -20,16 +20,6 @@ Definition json_of_event (e : event) : json :=
   | EAccept => JArr [JStr "acc"]
   end.
 
-Fixpoint toks_to_ids (l : list tok) : res (list token) :=
-  match l with
-  | [] => Ok []
-  | (ty, v) :: r =>
-    match term_id ty with
-    | Some p => do t <- toks_to_ids r; Ok ((p, v) :: t)
-    | None => Unsupported ("unknown terminal " ++ ty)
-    end
-  end.
-
 (* tokens given as alternating type / value arguments *)
 Fixpoint pair_up (l : list string) : list tok :=
   match l with a :: b :: r => (a, b) :: pair_up r | _ => [] end.
@@ -43,6 +33,17 @@ Definition dispatch (cmd : string) (args : list string) : string :=
       json_of_res (fun l => JArr (map (fun lx => JArr [JStr (fst lx); JStr (snd lx)]) l)) (scan s)
   | "lr", silent :: toks =>
       json_of_res (fun evs => JArr (map json_of_event evs))
-                  (do ids <- toks_to_ids (pair_up toks); lr_trace (String.eqb silent "1") real_tables ids)
+                  (do ids <- toks_to_ids term_id (pair_up toks); lr_trace (String.eqb silent "1") real_tables ids)
+  | "parse", [norm; silent; s] =>
+      json_of_res (fun o => match o with Some v => JObj [("value", json_of_pyval v)] | None => JObj [("none", JBool true)] end)
+                  (parse_statement (String.eqb norm "1") (String.eqb silent "1") s)
+  | "seq_spec", norm :: rest =>
+      match seq_of_args rest with
+      | None => JObj [("unsupported", JStr "bad seq args")]
+      | Some a =>
+        JObj [("wf", JBool (Seq.wf a));
+              ("lexemes", JArr (map (fun lx => JArr [JStr (fst lx); JStr (snd lx)]) (Seq.lexemes a)));
+              ("denote", json_of_pyval (Seq.denote (String.eqb norm "1") a))]
+      end
   | _, _ => JObj [("unsupported", JStr ("command " ++ cmd))]
   end.
